@@ -35,30 +35,36 @@ META = {
                 'doit/runner.py::Runner.run_tasks', 'doit/runner.py::Runner.run_all',
                 'doit/runner.py::MRunner.get_next_job', 'doit/runner.py::MRunner._run_start_processes',
                 'doit/runner.py::MRunner.run_tasks', 'doit/runner.py::MRunner.execute_task_subprocess'],
-    'technique': ('Lean 4 invariant proofs (Inv1 dispatcher, Inv2 runner discipline + event order, Inv3 counting) over '
-                  'a small-step transition system of TaskDispatcher + Runner/MRunner/MThreadRunner, for all schedules; '
-                  'trace-acceptance correspondence against the real doit (serial, real MThreadRunner under a '
-                  'deterministic scheduler incl. exhaustive completion orders of all small DAGs, real multiprocessing '
-                  'with token-forced completion order); Lean monitor on every implementation trace, Python reference '
-                  'monitor as cross-check '),
+    'technique': ('Lean 4 invariant proofs over a small-step transition system of TaskDispatcher + Runner / MRunner / '
+                  'MThreadRunner (Inv1 dispatcher bookkeeping, Inv2 runner discipline + event order, Inv3 counting / '
+                  'flight exclusivity, InvG delivery of calc results), for all schedules; trace-acceptance '
+                  'correspondence against the real doit (serial, real MThreadRunner under a deterministic scheduler '
+                  'incl. exhaustive completion orders of all small DAGs, real multiprocessing with token-forced '
+                  'completion order); the Lean monitor -- which is itself proved true of every model trace -- on every '
+                  'implementation trace, Python reference monitor as cross-check'),
     'design_ref': '§5 C01, §4 M1, §6.3, §6.4',
-    'level_text': ('Machine-checked (C01_order_serial, C01_order_parallel, C01_no_overlap): in every reachable state of '
-                  'the run model -- every task graph (also cyclic ones), every oracle (status/ignore/outcome/calc '
-                  'results), every set-iteration order, every interleaving of main and workers at queue-operation '
-                  "granularity, every numProcess -- a task's actions start only after each of its dependencies "
-                  '(task_dep, calc_dep, setup after expansion, and the deps delivered by calc tasks, via the known-deps '
-                  'list recorded when select_task said yes) reported success or up-to-date, and two dependency-related '
-                  'tasks never run at the same time.  The model is tied to doit/control.py and doit/runner.py on every '
-                  'run: the real doit executes generated DAGs (all edge kinds, groups, shared deps, failures, ignores, '
-                  'up-to-date tasks, --continue/--always; serial, thread under adversarial and exhaustively enumerated '
-                  'schedules, sampled real multiprocessing runs) and every observed event list must be a trace of the '
-                  'model; the statement itself is evaluated on every observed trace. '),
+    'level_text': ('Machine-checked, full statement, serial and parallel (C01_order_serial, C01_order_parallel, '
+                  'C01_order_known_deps_*, C01_order_monitor_serial, C01_order_monitor_parallel, C01_order_delivered, '
+                  'C01_no_overlap): in every reachable state of the run model -- every task graph (also cyclic ones), '
+                  'every oracle (status / ignore / outcome / calc results / getargs errors), --continue / --always, every '
+                  'iteration order of the sets the dispatcher iterates, every interleaving of the main thread and any '
+                  "number of workers at queue-operation granularity, every numProcess -- a task's actions start only "
+                  'after each of its dependencies (task_dep, calc_dep, setup after expansion, and everything the '
+                  'finished calc_deps delivered, transitively) reported add_success or skip_uptodate, and a task and one '
+                  'of its dependencies are never executed by two workers at the same time.  The decidable monitor '
+                  'monC01Order evaluated on implementation traces is proved to hold on every trace of the model.  The '
+                  'model is tied to doit/control.py and doit/runner.py on every run: the real doit executes generated '
+                  'DAGs (all edge kinds, groups, shared deps, failures, ignores, up-to-date tasks, --continue/--always; '
+                  'serial, thread under adversarial and exhaustively enumerated schedules, sampled real multiprocessing '
+                  'runs) and every observed event list must be a trace of the model; the statement itself is evaluated '
+                  'on every observed trace.'),
     'level_note': ('Trusted: Lean kernel (axioms propext/Classical.choice/Quot.sound); doitdrv; the Python harness '
                   '(generator, recording reporter, deterministic scheduler replacing MThreadRunner.Queue/Child, token '
                   'controller + counting Process subclass for MRunner).  getargs / result_dep / target->file_dep are '
                   "reduced to setup / task_dep edges by the harness' own expansion (runlib.expand), validated against "
-                  'doit by the correspondence itself.  Monitor (P): Lean predicate through the driver, cross-checked by '
-                  'a Python monitor; a disagreement is reported as divergence. '),
+                  'doit by the correspondence itself (the expansion lemma is M8).  Granularity assumption of M1: one '
+                  'transition = one thread running from one queue operation to the next.  Monitor (P): Lean predicate '
+                  'through the driver, cross-checked by a Python monitor; a disagreement is reported as divergence.'),
     'rule': 'random DAGs of 3-9 tasks (hidden topological order, shuffled definition order; edge kinds task_dep, setup, '
             'calc_dep (+delivered deps), file_dep->target, getargs, result_dep; groups; shared deps), oracle per task '
             '(run/up-to-date/error, ignored, ok/failed/error, teardown), flags, selection all/names/targets, runner '
@@ -82,9 +88,9 @@ KNOBS = {'p_dup_sel': 0.12}
 def plan(ctx, scale=1.0):
     """(pool batches, main-process batches) for this run"""
     quick = ctx.tier == 'quick'
-    n_serial = int((400 if quick else 5000) * ctx.boost * scale)
-    n_thread = int((300 if quick else 5000) * ctx.boost * scale)
-    n_proc = int((10 if quick else 120) * min(ctx.boost, 2) * scale)
+    n_serial = int((700 if quick else 20000) * ctx.boost * scale)
+    n_thread = int((600 if quick else 20000) * ctx.boost * scale)
+    n_proc = int((12 if quick else 240) * min(ctx.boost, 2) * scale)
     rng = ctx.rng
     gen = []
     for _ in range(n_serial):
